@@ -177,4 +177,15 @@ def RF.minimalKnots (f : RF) : List Rat × Nat :=
     | _ => []
   (List.replicate (d + 1) f.lo ++ interior f ++ List.replicate (d + 1) f.hi, d)
 
+/-- for a polynomial curve of degree `deg`: the multiplicity each interior breakpoint needs
+(`deg + 1 −` first jumping derivative order, 0 when the two sides are the same polynomial) -/
+def RF.neededMults (f : RF) (deg : Nat) : List (Rat × Nat) :=
+  let rec go : List Piece → List (Rat × Nat)
+    | l :: r :: rest =>
+        (l.b, match firstJump deg l r l.b with
+          | none => 0
+          | some k => deg + 1 - k) :: go (r :: rest)
+    | _ => []
+  go f
+
 end NV
